@@ -35,30 +35,33 @@ def to_oa_date(date):
 
 def to_date(oadate):
     value = oadate - DAYS_EPOCH
+    # whole days and time of day, rounded to the millisecond (a day number
+    # carries no more precision than that for late years)
+    days = math.floor(value)
+    millis = round((value - days) * 24 * 60 * 60 * 1000)
+    if millis >= 24 * 60 * 60 * 1000:
+        days += 1
+        millis -= 24 * 60 * 60 * 1000
     year = 1970
-    while value > year_days(year):
-        value -= year_days(year)
+    while days >= year_days(year):
+        days -= year_days(year)
         year += 1
+    while days < 0:
+        year -= 1
+        days += year_days(year)
     month = 0
-    while value >= month_days(year, month):
-        value -= month_days(year, month)
+    while days >= month_days(year, month):
+        days -= month_days(year, month)
         month += 1
-    day = math.trunc(value) + 1
-    value = value - math.trunc(value)
-    hours = math.trunc(value * 24)
-    value = value * 24 - hours
-    minutes = math.trunc(value * 60)
-    value = value * 60 - minutes
-    seconds = math.trunc(value * 60)
-    value = value * 60 - seconds
-    microseconds = math.trunc(value * 1000 * 1000)
-    result = datetime.datetime.fromtimestamp(0)
-    return result.replace(
+    seconds, millis = divmod(millis, 1000)
+    minutes, seconds = divmod(seconds, 60)
+    hours, minutes = divmod(minutes, 60)
+    return datetime.datetime(
         year=year,
         month=month+1,
-        day=day,
+        day=days+1,
         hour=hours,
         minute=minutes,
         second=seconds,
-        microsecond=microseconds
+        microsecond=millis*1000
     )
